@@ -97,6 +97,44 @@ func Compress(data []byte, c Cfg, parts []int, hook kio.VerifHookFunc) ([]byte, 
 	return sink.Data, nil
 }
 
+// CompressRetry writes the stream through a sink whose last Write call of the fault-free run fails once (nothing accepted); Close
+// is then called again. It returns what the sink received when the second Close reports success, nil otherwise.
+func CompressRetry(data []byte, c Cfg, parts []int) []byte {
+	probe := &fio.Sink{}
+	w, err := kio.NewWriterWithCtx(probe, c.Ctx())
+	if err != nil {
+		return nil
+	}
+	if _, err := WriteAll(w, data, parts); err != nil || w.Close() != nil {
+		return nil
+	}
+	last := 0
+	for _, cl := range probe.Calls {
+		if cl.Op == "write" {
+			last = cl.K
+		}
+	}
+	if last == 0 {
+		return nil
+	}
+	sink := &fio.Sink{Fail: map[int]bool{last: true}}
+	w, err = kio.NewWriterWithCtx(sink, c.Ctx())
+	if err != nil {
+		return nil
+	}
+	if _, err := WriteAll(w, data, parts); err != nil {
+		w.Close()
+		return nil
+	}
+	if w.Close() == nil {
+		return nil // the failure did not reach the caller through Close: not the scenario
+	}
+	if w.Close() != nil {
+		return nil
+	}
+	return sink.Data
+}
+
 // RCfg is a decompression configuration.
 type RCfg struct {
 	Jobs uint `json:"jobs"`
